@@ -1,7 +1,7 @@
 CONSTANTS
   MaxBlocks = 1
   MaxBody = 2
-  PoolCap = 8
+  PoolCap = 12
   Fams = {"plain", "curs", "gdef", "attach"}
   Lsvs = {0}
   Nms = {TRUE}
